@@ -29,7 +29,7 @@ CHECKS.update({
         note="Trusted: Verus/Z3, vstd, slice::sort contract (ascending permutation), clone contracts, walker contract (proved in unit ast), parser invariants on type sizes (requires-clauses, checked bounded).",
         technique="contract-based deductive verification (Verus) of the real utils.rs / pack_*.rs functions + lemmas; bounded native search only for counterexamples",
     ),
-    "C03": bounded("Executable postcondition of analyze_dir (result == multiset union of the per-file results over eligible files at any depth, no empty lists) on every directory-tree shape with <= 5 (quick) / 7 (thorough) entries and depth <= 3, every files/sub-directory listing interleaving observed through fs::read_dir, all three categories.", "the file system (fs::read_dir, PathBuf), HashMap iteration or recursion through directories", "§9 C03"),
+    "C03": bounded("Executable postcondition of analyze_dir (result == multiset union of the per-file results over eligible files at any depth, no empty lists) on every directory-tree shape with <= 5 (quick) / 7 (thorough) entries and depth <= 3, every files/sub-directory listing interleaving observed through fs::read_dir, all three categories; every case with a first-level directory is also run on a root whose first-level directories are symbolic links; patterns in declaration, reversed and shuffled order; file contents from 10 sources (with and without pragma, only file-level definitions, the suicide alias, white space only); chains to depth 16/48.", "the file system (fs::read_dir, PathBuf), HashMap iteration or recursion through directories", "§9 C03"),
     "C16": bounded("Executable contract of the file filter inside analyze_dir: result == result with ineligible files removed, no ineligible file (any valid-Unicode name, any bytes) is read or makes the run panic, every eligible name is analysed; corner-case name lists x content kinds x positions in the tree.", "the file system or str::to_lowercase/ends_with on OS strings", "§9 C16"),
     "C11": dict(level="other",
         text="Verus (unit sections): the three pattern -> report-section tables (get_optimization_report_section, get_vulnerability_report_section, get_qa_report_section) are PROVED to return, for every pattern, the text of the section module documented for that pattern. BOUNDED for the rendering itself: executable postconditions of generate_*_report / generate_report: reading the '- file:line' entries back reproduces the findings; each list is preceded by its own pattern's section; a section appears iff the pattern has a finding. Every single pattern x 21 file/line shapes exhaustively + seeded random maps.",
@@ -41,7 +41,7 @@ CHECKS.update({
         design="§9 C11-C13",
         note="Trusted: Verus/Z3, vstd; section modules are external_body stubs. BOUNDED, never counted as proved: the counting and heading logic of generate_vulnerability_report / generate_optimization_report / generate_report (String concatenation, by-value iteration over HashMap, integer to_string).",
         technique="contract-based deductive verification (Verus) of the severity table; bounded executable-contract check (exhaustive over the stated finite space) of totals and headings on the real code"),
-    "C13": bounded("Relational check: the same findings set rendered from fresh HashMap instances (different hash seeds), permuted insertion orders of patterns and of (file, lines) vectors, and child processes must give byte-identical text equal to the canonical rendering.", "HashMap iteration order / per-process hash seeds", "§9 C11-C13"),
+    "C13": bounded("Relational check: the same findings set rendered from fresh HashMap instances (different hash seeds), permuted insertion orders of patterns and of (file, lines) vectors, and child processes must give byte-identical text equal to the canonical rendering; plus c13-dir, end to end: the same directory content created in 4/6 different orders (listing orders observed, not assumed), analysed by the real analyze_dir with the patterns in declaration / reversed / shuffled order and rendered by the real generate_*_report, also in a fresh process: all texts byte-identical.", "HashMap iteration order / per-process hash seeds", "§9 C11-C13"),
     "C14": dict(level="other",
         text="Verus (unit dispatch): the default lists get_all_optimizations / get_all_vulnerabilities / get_all_qa are PROVED to contain every variant of their enum (without a configuration file all patterns run), and analyze_for_* are PROVED to hand each pattern to the detector documented for it (variant -> detector table written from the documentation; the detector must be defined in the module file named after the pattern). The name tables str_to_optimization / str_to_vulnerability / str_to_qa are PROVED (unit names) to return, for every name whose lower-cased form is documented, the pattern documented under that name, with lemmas `every documented name selects its own pattern` and `every pattern has a documented name`. BOUNDED for the rest: executable contract of str_to_* over every documented name (scraped from docs/, README.md, Solstat.toml on each run) x casings, junk names rejected (the `unknown name fails` clause cannot be stated in Verus); precedence --path > toml path > ./contracts and exact pattern selection observed through hook H1 and the report of the real binary; unknown name => non-zero exit and no report.",
         design="§9 C14",
@@ -83,7 +83,7 @@ CHECKS.update({
         note="Trusted: Verus/Z3, vstd, walker contract (proved, C01), a TRUSTED MODEL of by-value iteration over std HashMap (sequence of remaining entries without duplicates holding exactly the map's entries; order unspecified), String keys obey the hash key model and are equal when their characters are, assumed std contracts (string equality, clone returns an equal value, pt::Type / FunctionTy equality structural, identity into()), R5 desugaring. The property's side condition (state-variable names unique and not shadowed) is what lets name-keyed tables stand for variables.",
         technique="contract-based deductive verification (Verus) of the real table builder, the four detectors and their helpers (trusted iterator model for HashMap); bounded native corpus only for counterexamples"),
     "C09": dict(level="other",
-        text="Mixed: the version GATES are PROVED with Verus (safe_math_optimization and its two wrappers report all SafeMath sites iff v < (0,8,0) resp. v >= (0,8,0) as lexicographic triples and the file attaches SafeMath, never both [lemma]; string_errors reports the require-string literals iff v >= (0,8,4), short_revert_string those of byte length >= 32 iff v < (0,8,4); nothing without a version) relative to spec_version(file); the regex-based extractor get_solidity_version_from_source_unit that computes v is outside Verus (external crate) and is run on every version triple 0.0.0..1.2.40 (thorough: x 6 operator spellings x 4 placements of unrelated pragmas x 3 bodies = exhaustive over the stated domain).",
+        text="Mixed: the version GATES are PROVED with Verus (safe_math_optimization and its two wrappers report all SafeMath sites iff v < (0,8,0) resp. v >= (0,8,0) as lexicographic triples and the file attaches SafeMath, never both [lemma]; string_errors reports the require-string literals iff v >= (0,8,4), short_revert_string those of byte length >= 32 iff v < (0,8,4); nothing without a version) relative to spec_version(file); the regex-based extractor get_solidity_version_from_source_unit that computes v is outside Verus (external crate) and is run on every version triple 0.0.0..1.2.40 (on boundary versions: x 6 operator spellings x 15 placements of the pragma statement -- other pragmas before / after, after a definition, at the end of the file, comments and white space inside the pragma value, a version-like experimental pragma -- x 4 bodies; previously x 4 placements of unrelated pragmas x 3 bodies = exhaustive over the stated domain).",
         design="§8 C09, §9",
         note="Trusted: Verus/Z3, vstd, walker contract (C01), assumed std contracts (string equality, String::len as uninterpreted byte length, HashSet::extend is union, SourceUnit::clone); parser invariant: string literal expressions are non-empty. The extractor part is bounded (exhaustive on the stated finite domain in thorough tier).",
         technique="contract-based deductive verification (Verus) of the gate functions; exhaustive-over-stated-domain native run of the regex extractor"),
